@@ -3,6 +3,7 @@ use crate::common::Ctx;
 use serde_json::Value;
 
 pub mod c01;
+pub mod c02;
 pub mod c05;
 pub mod c07;
 pub mod c07_sched;
@@ -28,6 +29,7 @@ pub fn level_of(id: &str) -> &'static str {
 pub fn run(id: &str, ctx: &Ctx) -> bool {
     match id {
         "C01" => c01::run(ctx),
+        "C02" => c02::run(ctx),
         "C05" => c05::run(ctx),
         "C07" => c07::run(ctx),
         "C08" => c08::run(ctx),
@@ -48,6 +50,7 @@ pub fn run(id: &str, ctx: &Ctx) -> bool {
 pub fn replay(id: &str, ctx: &Ctx, case: &Value) -> Option<()> {
     match id {
         "C01" => c01::check_case(ctx, case),
+        "C02" => c02::check_case(ctx, case),
         "C05" => c05::check_case(ctx, case),
         "C07" => c07::check_case(ctx, case),
         "C08" => c08::check_case(ctx, case),
